@@ -110,6 +110,14 @@ func (c *Ctx) edgeRules() []EdgeRule {
 						continue
 					}
 				}
+				// a guard that relates two conditions (`(a.Subtype == "") != (b.Subtype == "")`: exactly one side has no
+				// subtype) covers two edge classes at one site: one site per way the relation can hold
+				if alts := splitRelatedConds(lits0); len(alts) > 1 {
+					for i, ls := range alts {
+						esites = append(esites, edgeSite{call, a, ls, fmt.Sprintf("%s (case %d of %d)", p.InstrPos(call), i+1, len(alts)), call, nil})
+					}
+					continue
+				}
 				esites = append(esites, edgeSite{call, a, lits0, p.InstrPos(call), call, nil})
 				continue
 			}
@@ -967,4 +975,37 @@ func specialiseLits(lits []core.Lit, bp *ssa.Parameter, k bool) []core.Lit {
 		out = append(out, l)
 	}
 	return out
+}
+
+// splitRelatedConds: when one of the literals compares two boolean conditions with each other, returns the literal
+// list once per way the comparison can hold, with the two conditions fixed; otherwise nil.
+func splitRelatedConds(lits []core.Lit) [][]core.Lit {
+	for i, l := range lits {
+		if l.Kind != "cmp" || (l.Op != token.EQL && l.Op != token.NEQ) {
+			continue
+		}
+		bx, okx := l.X.(*ssa.BinOp)
+		by, oky := l.Y.(*ssa.BinOp)
+		if !okx || !oky || !isBoolType(bx.Type()) || !isBoolType(by.Type()) {
+			continue
+		}
+		differ := (l.Op == token.NEQ) == l.Pol // the two conditions have different truth values
+		rest := append(append([]core.Lit{}, lits[:i]...), lits[i+1:]...)
+		var out [][]core.Lit
+		for _, vx := range []bool{true, false} {
+			vy := vx
+			if differ {
+				vy = !vx
+			}
+			ls := append(append([]core.Lit{}, rest...), core.LitOf(bx, vx), core.LitOf(by, vy))
+			out = append(out, ls)
+		}
+		return out
+	}
+	return nil
+}
+
+func isBoolType(t types.Type) bool {
+	b, ok := t.Underlying().(*types.Basic)
+	return ok && b.Kind() == types.Bool
 }
